@@ -169,8 +169,9 @@ def build_and_run(crate):
 REF_RE = re.compile(r"\[ref: ([0-9]{1,10})\]")
 
 
-def run_program(binary, cases, structured):
-    """Returns (problems, stats). problems: list of (case or None, text)."""
+def run_program(binary, cases, structured, lock=100000):
+    """Returns (problems, stats). problems: list of (case or None, text).  Each problem text about a statement ends with
+    the ID the statement received, when it received one (" [id N]")."""
     problems = []
     root = new_scratch("c9")
     crate = os.path.join(root, "prog")
@@ -196,7 +197,7 @@ def run_program(binary, cases, structured):
                      "    - module: log\n      name: warn\n    - module: log\n      name: error\n" % ("true" if structured else "false"))
         # existing references in the generated statements include 4294967295; allocate from a lock value instead
         with open(os.path.join(crate, "Breadlog.lock"), "w") as fh:
-            fh.write(bl.LOCK_HEADER + "next_reference_id: 100000\n")
+            fh.write(bl.LOCK_HEADER + "next_reference_id: %d\n" % lock)
         tmp = os.path.join(root, "tmp")
         os.makedirs(tmp)
         r = bl.run_breadlog(binary, os.path.join(crate, "Breadlog.yaml"), check=False, tmpdir=tmp, roots=(), shim=False, timeout=300)
@@ -210,10 +211,13 @@ def run_program(binary, cases, structured):
             lines = sorted(set(int(m.group(1)) for m in re.finditer(r"src/generated\.rs:(\d+):", err)))
             # map lines of the edited file back: insertions do not add lines
             hit = 0
+            blines_b = text_b.split("\n")
             for (uid, c, first, last) in index:
                 if any(first <= ln <= last for ln in lines):
                     hit += 1
-                    problems.append((c, "the statement no longer compiles after the edit"))
+                    got = re.search(r"ref = (\d+)|\[ref: (\d+)\]", "\n".join(blines_b[first - 1:last]))
+                    ident = (got.group(1) or got.group(2)) if got else None
+                    problems.append((c, "the statement no longer compiles after the edit" + (" [id %s]" % ident if ident else "")))
             if not hit:
                 problems.append((None, "the program no longer compiles after the edit: " + err[-600:]))
             return problems, {"statements": len(index), "edited": 0}
